@@ -26,6 +26,9 @@ CLAIMED = {
     "C11": ("Lean 4 theorems about DispatchAggregate and the aggregator loop of Table.Dispatch + regenerated facts + differential validation with feedback of aggregator output through Table.In",
             "proof: Crng.Props.C11.aggregate_only_routes, aggregate_routes_exact, no_amplification, dropraw_exact (complete six-condition filter, via C03.agg_filter_complete), consumed_withheld, others_unaffected. Regenerated obligations (Crng.Tie.C11): Table.In feeds DispatchAggregate only; DispatchAggregate is the route loop; AddMaybe confirms the match before the hand-off and reports drop-raw after it; Dispatch returns on drop-raw. Correspondence (spec-exact): tables with drop-raw, self-matching and chained aggregations plus blacklist entries and rewriters aimed at the aggregate names; each aggregator emission is fed back through Table.In and its routing compared.",
             "trusted: Lean kernel; harness+driver plumbing; aggregator timing (flush ticks) is injected; numeric aggregation itself is C10.", "§5 C11"),
+    "C18": ("Lean 4 theorems about Go slice headers over shared backing arrays (snapshot isolation under safe update idioms; refinement of list operations) + regenerated idiom/lock facts + white-box differential validation",
+            "proof: Crng.Props.C18.isolation, ops_refine_list, deleteInPlace_breaks. Regenerated obligations (Crng.Tie.C18): the idiom of each of the eleven assignments to a published slice is safe in the model; every mutator locks first, defers the unlock and does Load..Store; Dispatch/DispatchAggregate Load once, no lock; index/key guards; destination filter under its mutex. Correspondence (spec-exact): admin-op histories (add/delete by index and key, out-of-range indices, unknown keys) on a real table and route; the slice headers a dispatcher would hold are read out of the atomic.Value by reflection and re-read after later operations, compared with the model executing the extracted idioms; model-free monitor: a held snapshot never changes, the current view follows list semantics, bad indices are rejected.",
+            "trusted: Lean kernel; harness+driver plumbing; the extractor's idiom classification; schedules are interleavings of element reads with whole mutators (mutex scope extracted); the aggregator list is covered by the idiom facts only; the dispatcher-blocked-on-a-shut-down-destination schedule is a documented known limitation (DESIGN §6 #8).", "§5 C18"),
     "C19": ("Lean 4 theorems about validate.Ordered over all sequential histories; all interleavings reduced to sequential histories by the regenerated fact that the whole function is one critical section; differential + concurrent validation",
             "proof: Crng.Props.C19.accepted_strictly_increasing, accept_iff_newer, newer_positive_accepted, not_newer_rejected, collision_counterexample. Regenerated obligations (Crng.Tie.C19): lock first / deferred unlock / strict comparison / update only on acceptance; the gate sits after validation on the validated key and returns on rejection. Correspondence (spec-exact): tables with order validation on, per-name sequences incl. names differing by a leading dot, out-of-order counter and bad-metrics report; concurrent goroutines on the real function with a max-register monitor (no timestamp accepted twice, per-goroutine monotone).",
             "trusted: Lean kernel; harness+driver plumbing; FNV-64a injective on the names of a history (hypothesis, shown necessary); schedules = interleavings of the extracted critical section.", "§5 C19"),
